@@ -248,6 +248,16 @@ func (s *SpokFile) run(stream iostream.IOStream, runner shell.Runner, force bool
 			continue
 		}
 
+		// Forget the recorded digest on disk before running anything, if spok is killed from
+		// here on the task simply runs again next time rather than being skipped on the
+		// strength of a digest that no longer describes what its commands last ran on
+		if cachedDigest != "" {
+			cachedState.Set(taskToRun.Name, "")
+			if err := cachedState.Dump(cachePath); err != nil {
+				return nil, err
+			}
+		}
+
 		result, err := taskToRun.Run(runner, stream, s.Env())
 		if err != nil {
 			return nil, fmt.Errorf("Task %q encountered an error: %w", taskToRun.Name, err)
@@ -255,13 +265,16 @@ func (s *SpokFile) run(stream iostream.IOStream, runner shell.Runner, force bool
 
 		// Whether or not this task is now up to date depends only on how this task went,
 		// record it straight away so that nothing that happens to the tasks after it
-		// (a skip, a failure, no file dependencies) can lose it
+		// (a skip, a failure, no file dependencies) can lose it. If it failed, whatever it
+		// last succeeded on (if anything) is still the truth
 		if result.Ok() && len(toHash) != 0 {
 			s.logger.Debug("Updating cached state for task %s", taskToRun.Name)
 			cachedState.Set(taskToRun.Name, currentDigest)
-			if err := cachedState.Dump(cachePath); err != nil {
-				return nil, err
-			}
+		} else {
+			cachedState.Set(taskToRun.Name, cachedDigest)
+		}
+		if err := cachedState.Dump(cachePath); err != nil {
+			return nil, err
 		}
 
 		// Gather up all the task results
